@@ -77,6 +77,15 @@ class C06(e1.E1Check):
                      "content": {"class": "NumpyArray", "array": np.array(flat, dtype=name)}}
                 group.append((var(leaf), chunk, [(d, ["dtype-" + name])]))
             groups.append(group)
+        # long lists (beyond the small-input paths of std::sort / std::stable_sort / quick_sort)
+        import encs
+        longs = values.long_sort_values((17, 24, 33) if tier == "quick" else (16, 17, 18, 24, 32, 33, 40, 65))
+        group = []
+        for kind, tvs in longs:
+            T = var(F) if kind == "float" else var(I)
+            group.append((T, tvs, list(encs.encodings(T, tvs, 1, False))[:6]))
+        for k in range(0, len(group), 12):
+            groups.append(group[k:k + 12])
         return groups
 
     def alphabet(self, T, tvs, tier):
